@@ -21,14 +21,21 @@ package beacon
 //@ func (d *ForkDecoder) ForkDigest(epoch) r
 //@   property C14
 //@   requires d != nil && d.Spec != nil
-//@   requires ordered: d.Spec.ALTAIR_FORK_EPOCH <= d.Spec.BELLATRIX_FORK_EPOCH && d.Spec.BELLATRIX_FORK_EPOCH <= d.Spec.CAPELLA_FORK_EPOCH && d.Spec.CAPELLA_FORK_EPOCH <= d.Spec.DENEB_FORK_EPOCH && d.Spec.DENEB_FORK_EPOCH <= d.Spec.ELECTRA_FORK_EPOCH && d.Spec.ELECTRA_FORK_EPOCH <= d.Spec.FULU_FORK_EPOCH
-//@   ensures phase0: fork_idx(epoch, d.Spec.ALTAIR_FORK_EPOCH, d.Spec.BELLATRIX_FORK_EPOCH, d.Spec.CAPELLA_FORK_EPOCH, d.Spec.DENEB_FORK_EPOCH, d.Spec.ELECTRA_FORK_EPOCH, d.Spec.FULU_FORK_EPOCH) == 0 ==> r == d.Genesis
-//@   ensures altair: fork_idx(epoch, d.Spec.ALTAIR_FORK_EPOCH, d.Spec.BELLATRIX_FORK_EPOCH, d.Spec.CAPELLA_FORK_EPOCH, d.Spec.DENEB_FORK_EPOCH, d.Spec.ELECTRA_FORK_EPOCH, d.Spec.FULU_FORK_EPOCH) == 1 ==> r == d.Altair
-//@   ensures bellatrix: fork_idx(epoch, d.Spec.ALTAIR_FORK_EPOCH, d.Spec.BELLATRIX_FORK_EPOCH, d.Spec.CAPELLA_FORK_EPOCH, d.Spec.DENEB_FORK_EPOCH, d.Spec.ELECTRA_FORK_EPOCH, d.Spec.FULU_FORK_EPOCH) == 2 ==> r == d.Bellatrix
-//@   ensures capella: fork_idx(epoch, d.Spec.ALTAIR_FORK_EPOCH, d.Spec.BELLATRIX_FORK_EPOCH, d.Spec.CAPELLA_FORK_EPOCH, d.Spec.DENEB_FORK_EPOCH, d.Spec.ELECTRA_FORK_EPOCH, d.Spec.FULU_FORK_EPOCH) == 3 ==> r == d.Capella
-//@   ensures deneb: fork_idx(epoch, d.Spec.ALTAIR_FORK_EPOCH, d.Spec.BELLATRIX_FORK_EPOCH, d.Spec.CAPELLA_FORK_EPOCH, d.Spec.DENEB_FORK_EPOCH, d.Spec.ELECTRA_FORK_EPOCH, d.Spec.FULU_FORK_EPOCH) == 4 ==> r == d.Deneb
-//@   ensures electra: fork_idx(epoch, d.Spec.ALTAIR_FORK_EPOCH, d.Spec.BELLATRIX_FORK_EPOCH, d.Spec.CAPELLA_FORK_EPOCH, d.Spec.DENEB_FORK_EPOCH, d.Spec.ELECTRA_FORK_EPOCH, d.Spec.FULU_FORK_EPOCH) == 5 ==> r == d.Electra
-//@   ensures fulu: fork_idx(epoch, d.Spec.ALTAIR_FORK_EPOCH, d.Spec.BELLATRIX_FORK_EPOCH, d.Spec.CAPELLA_FORK_EPOCH, d.Spec.DENEB_FORK_EPOCH, d.Spec.ELECTRA_FORK_EPOCH, d.Spec.FULU_FORK_EPOCH) == 6 ==> r == d.Fulu
+//@   ensures phase0: d.Spec.ALTAIR_FORK_EPOCH <= d.Spec.BELLATRIX_FORK_EPOCH && d.Spec.BELLATRIX_FORK_EPOCH <= d.Spec.CAPELLA_FORK_EPOCH && d.Spec.CAPELLA_FORK_EPOCH <= d.Spec.DENEB_FORK_EPOCH && d.Spec.DENEB_FORK_EPOCH <= d.Spec.ELECTRA_FORK_EPOCH && d.Spec.ELECTRA_FORK_EPOCH <= d.Spec.FULU_FORK_EPOCH && fork_idx(epoch, d.Spec.ALTAIR_FORK_EPOCH, d.Spec.BELLATRIX_FORK_EPOCH, d.Spec.CAPELLA_FORK_EPOCH, d.Spec.DENEB_FORK_EPOCH, d.Spec.ELECTRA_FORK_EPOCH, d.Spec.FULU_FORK_EPOCH) == 0 ==> r == d.Genesis
+//@   ensures altair: d.Spec.ALTAIR_FORK_EPOCH <= d.Spec.BELLATRIX_FORK_EPOCH && d.Spec.BELLATRIX_FORK_EPOCH <= d.Spec.CAPELLA_FORK_EPOCH && d.Spec.CAPELLA_FORK_EPOCH <= d.Spec.DENEB_FORK_EPOCH && d.Spec.DENEB_FORK_EPOCH <= d.Spec.ELECTRA_FORK_EPOCH && d.Spec.ELECTRA_FORK_EPOCH <= d.Spec.FULU_FORK_EPOCH && fork_idx(epoch, d.Spec.ALTAIR_FORK_EPOCH, d.Spec.BELLATRIX_FORK_EPOCH, d.Spec.CAPELLA_FORK_EPOCH, d.Spec.DENEB_FORK_EPOCH, d.Spec.ELECTRA_FORK_EPOCH, d.Spec.FULU_FORK_EPOCH) == 1 ==> r == d.Altair
+//@   ensures bellatrix: d.Spec.ALTAIR_FORK_EPOCH <= d.Spec.BELLATRIX_FORK_EPOCH && d.Spec.BELLATRIX_FORK_EPOCH <= d.Spec.CAPELLA_FORK_EPOCH && d.Spec.CAPELLA_FORK_EPOCH <= d.Spec.DENEB_FORK_EPOCH && d.Spec.DENEB_FORK_EPOCH <= d.Spec.ELECTRA_FORK_EPOCH && d.Spec.ELECTRA_FORK_EPOCH <= d.Spec.FULU_FORK_EPOCH && fork_idx(epoch, d.Spec.ALTAIR_FORK_EPOCH, d.Spec.BELLATRIX_FORK_EPOCH, d.Spec.CAPELLA_FORK_EPOCH, d.Spec.DENEB_FORK_EPOCH, d.Spec.ELECTRA_FORK_EPOCH, d.Spec.FULU_FORK_EPOCH) == 2 ==> r == d.Bellatrix
+//@   ensures capella: d.Spec.ALTAIR_FORK_EPOCH <= d.Spec.BELLATRIX_FORK_EPOCH && d.Spec.BELLATRIX_FORK_EPOCH <= d.Spec.CAPELLA_FORK_EPOCH && d.Spec.CAPELLA_FORK_EPOCH <= d.Spec.DENEB_FORK_EPOCH && d.Spec.DENEB_FORK_EPOCH <= d.Spec.ELECTRA_FORK_EPOCH && d.Spec.ELECTRA_FORK_EPOCH <= d.Spec.FULU_FORK_EPOCH && fork_idx(epoch, d.Spec.ALTAIR_FORK_EPOCH, d.Spec.BELLATRIX_FORK_EPOCH, d.Spec.CAPELLA_FORK_EPOCH, d.Spec.DENEB_FORK_EPOCH, d.Spec.ELECTRA_FORK_EPOCH, d.Spec.FULU_FORK_EPOCH) == 3 ==> r == d.Capella
+//@   ensures deneb: d.Spec.ALTAIR_FORK_EPOCH <= d.Spec.BELLATRIX_FORK_EPOCH && d.Spec.BELLATRIX_FORK_EPOCH <= d.Spec.CAPELLA_FORK_EPOCH && d.Spec.CAPELLA_FORK_EPOCH <= d.Spec.DENEB_FORK_EPOCH && d.Spec.DENEB_FORK_EPOCH <= d.Spec.ELECTRA_FORK_EPOCH && d.Spec.ELECTRA_FORK_EPOCH <= d.Spec.FULU_FORK_EPOCH && fork_idx(epoch, d.Spec.ALTAIR_FORK_EPOCH, d.Spec.BELLATRIX_FORK_EPOCH, d.Spec.CAPELLA_FORK_EPOCH, d.Spec.DENEB_FORK_EPOCH, d.Spec.ELECTRA_FORK_EPOCH, d.Spec.FULU_FORK_EPOCH) == 4 ==> r == d.Deneb
+//@   ensures electra: d.Spec.ALTAIR_FORK_EPOCH <= d.Spec.BELLATRIX_FORK_EPOCH && d.Spec.BELLATRIX_FORK_EPOCH <= d.Spec.CAPELLA_FORK_EPOCH && d.Spec.CAPELLA_FORK_EPOCH <= d.Spec.DENEB_FORK_EPOCH && d.Spec.DENEB_FORK_EPOCH <= d.Spec.ELECTRA_FORK_EPOCH && d.Spec.ELECTRA_FORK_EPOCH <= d.Spec.FULU_FORK_EPOCH && fork_idx(epoch, d.Spec.ALTAIR_FORK_EPOCH, d.Spec.BELLATRIX_FORK_EPOCH, d.Spec.CAPELLA_FORK_EPOCH, d.Spec.DENEB_FORK_EPOCH, d.Spec.ELECTRA_FORK_EPOCH, d.Spec.FULU_FORK_EPOCH) == 5 ==> r == d.Electra
+//@   ensures fulu: d.Spec.ALTAIR_FORK_EPOCH <= d.Spec.BELLATRIX_FORK_EPOCH && d.Spec.BELLATRIX_FORK_EPOCH <= d.Spec.CAPELLA_FORK_EPOCH && d.Spec.CAPELLA_FORK_EPOCH <= d.Spec.DENEB_FORK_EPOCH && d.Spec.DENEB_FORK_EPOCH <= d.Spec.ELECTRA_FORK_EPOCH && d.Spec.ELECTRA_FORK_EPOCH <= d.Spec.FULU_FORK_EPOCH && fork_idx(epoch, d.Spec.ALTAIR_FORK_EPOCH, d.Spec.BELLATRIX_FORK_EPOCH, d.Spec.CAPELLA_FORK_EPOCH, d.Spec.DENEB_FORK_EPOCH, d.Spec.ELECTRA_FORK_EPOCH, d.Spec.FULU_FORK_EPOCH) == 6 ==> r == d.Fulu
+// for every ordering of the fork epochs, ordered or not: the one selection every lookup agrees on (fork_sel, /verif/spec/forks.gvc)
+//@   ensures same_phase0: fork_sel(epoch, d.Spec.ALTAIR_FORK_EPOCH, d.Spec.BELLATRIX_FORK_EPOCH, d.Spec.CAPELLA_FORK_EPOCH, d.Spec.DENEB_FORK_EPOCH, d.Spec.ELECTRA_FORK_EPOCH, d.Spec.FULU_FORK_EPOCH) == 0 ==> r == d.Genesis
+//@   ensures same_altair: fork_sel(epoch, d.Spec.ALTAIR_FORK_EPOCH, d.Spec.BELLATRIX_FORK_EPOCH, d.Spec.CAPELLA_FORK_EPOCH, d.Spec.DENEB_FORK_EPOCH, d.Spec.ELECTRA_FORK_EPOCH, d.Spec.FULU_FORK_EPOCH) == 1 ==> r == d.Altair
+//@   ensures same_bellatrix: fork_sel(epoch, d.Spec.ALTAIR_FORK_EPOCH, d.Spec.BELLATRIX_FORK_EPOCH, d.Spec.CAPELLA_FORK_EPOCH, d.Spec.DENEB_FORK_EPOCH, d.Spec.ELECTRA_FORK_EPOCH, d.Spec.FULU_FORK_EPOCH) == 2 ==> r == d.Bellatrix
+//@   ensures same_capella: fork_sel(epoch, d.Spec.ALTAIR_FORK_EPOCH, d.Spec.BELLATRIX_FORK_EPOCH, d.Spec.CAPELLA_FORK_EPOCH, d.Spec.DENEB_FORK_EPOCH, d.Spec.ELECTRA_FORK_EPOCH, d.Spec.FULU_FORK_EPOCH) == 3 ==> r == d.Capella
+//@   ensures same_deneb: fork_sel(epoch, d.Spec.ALTAIR_FORK_EPOCH, d.Spec.BELLATRIX_FORK_EPOCH, d.Spec.CAPELLA_FORK_EPOCH, d.Spec.DENEB_FORK_EPOCH, d.Spec.ELECTRA_FORK_EPOCH, d.Spec.FULU_FORK_EPOCH) == 4 ==> r == d.Deneb
+//@   ensures same_electra: fork_sel(epoch, d.Spec.ALTAIR_FORK_EPOCH, d.Spec.BELLATRIX_FORK_EPOCH, d.Spec.CAPELLA_FORK_EPOCH, d.Spec.DENEB_FORK_EPOCH, d.Spec.ELECTRA_FORK_EPOCH, d.Spec.FULU_FORK_EPOCH) == 5 ==> r == d.Electra
+//@   ensures same_fulu: fork_sel(epoch, d.Spec.ALTAIR_FORK_EPOCH, d.Spec.BELLATRIX_FORK_EPOCH, d.Spec.CAPELLA_FORK_EPOCH, d.Spec.DENEB_FORK_EPOCH, d.Spec.ELECTRA_FORK_EPOCH, d.Spec.FULU_FORK_EPOCH) == 6 ==> r == d.Fulu
 
 // ---------------------------------------------------------------- chain view (assumed interface models, C12)
 // Queries are uninterpreted functions of the ghost version gvver of the node's
